@@ -273,6 +273,11 @@ impl<'a> Sess<'a> {
 					// key exchange with unusable parameters
 					return (out, json!({"c": "call", "m": "init", "good": false, "notif": false}));
 				}
+				// an envelope under another method name, or as a bare array, is malformed: the gate
+				// answers -32002 without opening it (the [fix:] for C13-envelope-method-not-checked)
+				if form == "foo" || (form == "seq" && top) {
+					return (out, json!({"c": "junk", "obj": form == "foo"}));
+				}
 				if top {
 					sent.used_key = Some(key.clone());
 					if sealed {
